@@ -1,3 +1,4 @@
+import RodbusModel.Props.C01Write
 import RodbusModel.Props.C02
 import RodbusModel.Props.C02Session
 /- axiom audit for C02: every line must report a subset of {propext, Classical.choice, Quot.sound} -/
@@ -29,3 +30,5 @@ import RodbusModel.Props.C02Session
 #print axioms Rodbus.C02.cutScript_not_badFrame
 #print axioms Rodbus.C02.session_invalid_no_effect
 #print axioms Rodbus.C02.corrupted_request_no_effect
+#print axioms Rodbus.C01W.write_failure_calls_justified
+#print axioms Rodbus.C01W.write_failure_prefix
